@@ -368,6 +368,25 @@ pub fn entries_filtered(base: &MpcCase, corrupt: usize, all_idx: bool, salt: usi
         e.attack.taps = [a % 8, b % 8].iter().map(|i| TapSpec { site: "beaver_d".into(), idx: Some(*i), action: TapAction::Flip }).collect();
         out.push(e);
     }
+    // rushing cheater: waits for the honest openings of a round and answers with their XOR (n = 2:
+    // reflects the victim's opening); the commitments it sent before bind it to another value
+    // (the leaky-AND check values XOR to zero in an honest run, so reflecting them changes nothing:
+    // that round is attacked in C02 together with a wrong triple)
+    for (label, occs, round) in [("RNG ver", vec![0usize, 1], vec!["RNG ver"]), ("fashare ver", vec![0], ASHARE.to_vec()), ("fashare di_bi", vec![0], ASHARE.to_vec())] {
+        for occ in occs {
+            if !tmpl.res.msgs.iter().any(|m| m.from == corrupt && m.label == label && m.label_occ == occ) {
+                continue;
+            }
+            out.push(Entry {
+                row: format!("rushing: {label} answered with the XOR / reflection of the honest openings"),
+                attack: AttackCase { rush: vec![crate::adv::RushSpec { label: label.into(), occ: Some(occ) }], ..AttackCase::honest(base.clone(), corrupt) },
+                victims: honest.clone(),
+                anchor: Anchor::Tampered,
+                whitelist: wl(&round),
+                ot_group: false,
+            });
+        }
+    }
     // aBit: the cheater uses other choice bits in the OT extension towards one party than the bit
     // string it runs the aBit test with (for n=3: other bits than towards the third party).
     // Index sets: single positions and pairs at the strides at which word/half-word oriented
